@@ -566,7 +566,10 @@ impl Response {
             if !is_first_iteration {
                 header = Response::_parse_http_response_header_string(&string);
                 if header.name == Header::_CONTENT_LENGTH {
-                    content_length = header.value.parse().unwrap();
+                    let boxed_content_length = header.value.parse();
+                    if boxed_content_length.is_ok() {
+                        content_length = boxed_content_length.unwrap();
+                    }
                 }
             }
 
@@ -853,7 +856,10 @@ impl Response {
                 }
                 let header = boxed_header.unwrap();
                 if header.name == Header::_CONTENT_LENGTH {
-                    content_length = header.value.parse().unwrap();
+                    let boxed_content_length = header.value.parse();
+                    if boxed_content_length.is_ok() {
+                        content_length = boxed_content_length.unwrap();
+                    }
                 }
                 response.headers.push(header);
             }
